@@ -12,6 +12,7 @@ import (
 	"strconv"
 	"strings"
 	"time"
+	"unsafe"
 
 	ch "github.com/ClickHouse/ch-go"
 	"github.com/ClickHouse/ch-go/proto"
@@ -527,6 +528,36 @@ func (s *Scenario) Run() any {
 // ---------------------------------------------------------------------------------------------------
 // oracles
 
+// promiseState reports (pending, err) of a promise after the execution has ended, without blocking and through the
+// promise's exported behaviour only: a promise announces completion by closing a channel (whatever the field is
+// called; the scheduler keeps the real channel's closed state in sync with its model), and once that channel is
+// closed the exported Get cannot block.  No other private detail (flag, sync.Once, field names) is relied upon, so an
+// internal refactor of the promise does not break the harness.
+func promiseState(p *promise.Promise[uint32]) (bool, error) {
+	v := reflect.ValueOf(p).Elem()
+	for i := 0; i < v.NumField(); i++ {
+		f := v.Field(i)
+		if f.Kind() != reflect.Chan {
+			continue
+		}
+		ch := reflect.NewAt(f.Type(), unsafe.Pointer(f.UnsafeAddr())).Elem()
+		if ch.IsNil() || ch.Type().ChanDir()&reflect.RecvDir == 0 {
+			continue
+		}
+		x, ok := ch.TryRecv()
+		switch {
+		case ok:
+			panic(sched.HarnessError{Msg: "promise completion channel carries values: the harness cannot probe it without consuming them"})
+		case x.IsValid(): // closed
+			_, err := p.Get()
+			return false, err
+		default:
+			return true, nil
+		}
+	}
+	panic(sched.HarnessError{Msg: "promise.Promise has no completion channel: adapt inslib.promiseState"})
+}
+
 // Which selects the oracle: "C01", "C02" or "" (both).
 var Which = ""
 
@@ -585,7 +616,7 @@ func (s *Scenario) Check(obs any, res *sched.Result) (string, []sched.Finding) {
 	// every attempt's rows travel together in one block and the attempt's promise reports that block's outcome
 	used := map[int]int{} // id -> number of blocks already matched to earlier attempts
 	for _, a := range w.Attempts {
-		pending, perr := a.Promise.VerifState()
+		pending, perr := promiseState(a.Promise)
 		if len(a.IDs) == 0 {
 			continue
 		}
